@@ -440,7 +440,9 @@ class NPGetText(BaseTranslateFilter, TranslatableFilter):
 
 
 def _count(val: Any) -> Optional[int]:
-    if val in (None, False, True):
+    # `0 == False` and `1 == True`, so booleans are recognized by type. Otherwise a
+    # count of zero would be mistaken for "no count".
+    if isinstance(val, bool) or val in (None,):
         return None
     try:
         return int(val)
